@@ -81,6 +81,18 @@ func bubble(t *testing.T, f func()) (leak string) {
 			panic(r)
 		}
 	}()
-	synctest.Test(t, func(t *testing.T) { f() })
+	var inner any
+	synctest.Test(t, func(t *testing.T) {
+		// a panic inside the bubble's goroutine would abort the test binary: carry it out
+		defer func() {
+			if r := recover(); r != nil {
+				inner = r
+			}
+		}()
+		f()
+	})
+	if inner != nil {
+		panic(inner)
+	}
 	return ""
 }
